@@ -5,12 +5,16 @@ import (
 	"github.com/markusressel/fan2go/internal/zzv"
 )
 
-//zzv:bound B1 = real NewFan + AttachFanRpmCurveData -> ComputePwmBoundaries on RPM-curve maps with 1..3 (thorough 1..4) entries, keys any distinct 0..255, RPM values any whole numbers 0..10^6 (thorough, up to 3 entries: any float64 0..10^6, so that the truncation to whole RPM matters): start PWM = least key with int(rpm) > 0 (255 if none), max PWM = least key attaining the largest int(rpm) (255 if all are 0), whenever the limit is not configured
+//zzv:bound B1 = real NewFan + AttachFanRpmCurveData -> ComputePwmBoundaries on RPM-curve maps with 1..3 (thorough 1..4) entries, keys any distinct 0..255, RPM values any whole numbers 0..10^6 ; a separate harness uses arbitrary float64 RPM values 0..10^6 on 2 (thorough 1..3) entries so that the truncation to whole RPM matters: start PWM = least key with int(rpm) > 0 (255 if none), max PWM = least key attaining the largest int(rpm) (255 if all are 0), whenever the limit is not configured
 //zzv:bound B2 = nil or empty data: error returned and no limit changed
 //zzv:bound B3 = all eight combinations of configured minPwm/startPwm/maxPwm (values any 0..255): configured values are what the getters return after attach
 //zzv:bound B4 = neverStop off: GetMinPwm() = 0 whatever is configured or measured
 //zzv:bound B5 = two successive attachments of different data: the limits are those of the second data set
 //zzv:outside maps with more entries than the bound; RPM values above 10^6; file and cmd fans (fixed limits, attach is a no-op)
+
+// zzFloatRpm: RPM values are arbitrary float64 (fractional parts matter for the "whole RPM" rule)
+// instead of whole numbers; set by the harnesses that want it
+var zzFloatRpm = false
 
 func zzCurveData(tag string, n int) (keys []int, rpms []float64, data map[int]float64) {
 	keys = make([]int, n)
@@ -23,7 +27,7 @@ func zzCurveData(tag string, n int) (keys []int, rpms []float64, data map[int]fl
 		for j := 0; j < i; j++ {
 			zzv.Assume(keys[j] != keys[i])
 		}
-		if zzv.Thorough() && n <= 3 {
+		if zzFloatRpm && n <= 3 {
 			rpms[i] = zzv.Float64(tag + "rpm")
 			zzv.Assume(rpms[i] >= 0)
 			zzv.Assume(rpms[i] <= 1000000)
@@ -105,6 +109,21 @@ func zzCheckLimits(fan *HwMonFan, cMin, cStart, cMax *int, keys []int, rpms []fl
 		zzv.Assert(zzv.Implies(fan.ShouldNeverStop(), fan.GetMinPwm() == *cMin), "B3.configured_min_wins"+suffix)
 	}
 	zzv.Assert(zzv.Implies(zzv.Not(fan.ShouldNeverStop()), fan.GetMinPwm() == 0), "B4.minimum_0_without_neverstop"+suffix)
+}
+
+// fractional RPM values (averaged / imported data): the rule is stated in whole RPM
+func ZZ_C13_AttachFractional() {
+	zzFloatRpm = true
+	fan, cMin, cStart, cMax := zzConfiguredFan(0)
+	n := 2
+	if zzv.Thorough() {
+		n = zzv.Choice("entries", 3) + 1
+	}
+	keys, rpms, data := zzCurveData("", n)
+	err := fan.AttachFanRpmCurveData(&data)
+	zzFloatRpm = false
+	zzv.Assert(err == nil, "B1.attach_accepts_data")
+	zzCheckLimits(fan, cMin, cStart, cMax, keys, rpms, ".fractional")
 }
 
 func ZZ_C13_Attach() {
